@@ -7,7 +7,7 @@ CONSTANTS
   Roles = {"server", "client"}
   Compressed = {FALSE, TRUE}
   HModes = {"default", "chain"}
-  Kinds = {"eof", "err", "timeout"}
+  Kinds = {"eof", "err", "timeout", "ueof", "cpipe", "osdl"}
 CONSTRAINT Emit
 INVARIANTS InvCompleteIsWhole InvOrder InvFailStop InvNothingPastViolation InvDecode
 CHECK_DEADLOCK FALSE
